@@ -113,6 +113,31 @@ CLAIMED.update({
              "C10; interrupt handlers are wrapped in RuntimeError by the implementation (known finding candidate, C14).",
         technique="Coq proof (characterisation of failing supersteps and of the nested executor) + fault enumeration over nodes",
     ),
+    "C12": dict(
+        category="translation_validation",
+        text="Every event stream the implementation delivers for a generated execution (nested to depth 3, sibling nested graphs, mapping nodes, "
+             "runner.map, cyclic, gated, failing, on_missing=error; both runners; sync and suspending async processors) is certified by the "
+             "checker wf_b, whose acceptance is PROVED to imply: each span opened once and closed exactly once, never closed before it is "
+             "opened, the parent of every open span still open at every point (children close before parents; nested runs inside the launching "
+             "node's span), root RunStart first and root RunEnd last with the caller-observed status. The harness additionally checks one "
+             "shutdown per top-level call, silence of rejected calls, and that a nested run is parented to the node that launched it.",
+        design_ref="DESIGN.md section 5 C12",
+        note="The for-all over programs is sampled (translation validation per trace); completeness of the checker (no false rejection) is "
+             "established empirically on the unchanged tree; an instrumented event-emitting model is not built. Known finding F-d (empty map).",
+        technique="proved trace checker (Coq invariant proof over the one-pass span automaton) applied to real event logs",
+    ),
+    "C13": dict(
+        category="proof",
+        text="Theorems on the dispatcher model: in non-strict mode (used by every runner) emit delivers each event to every processor once, in "
+             "order, and never lets an exception out; the same for shutdown; hence after any stream every processor (failing or healthy) has "
+             "the complete stream and exactly one shutdown. Tied to /repo by exhaustive fault enumeration: a processor raising at EVERY event "
+             "index of every generated execution's stream, on every event, and at shutdown (sync and suspending async processors, both "
+             "runners), with status/values/error/invocations compared to the processor-free run and a healthy processor's stream checked.",
+        design_ref="DESIGN.md section 5 C13",
+        note="That no dispatch site outside the dispatcher lets an exception escape is exactly what the fault enumeration over the real code "
+             "checks; the model covers emit/emit_async/shutdown/shutdown_async.",
+        technique="Coq proof (dispatcher model) + exhaustive fault enumeration over event indices",
+    ),
     "C14": dict(
         category="proof",
         text="Theorems: a handler returning None makes the interrupt executor pause naming the node, its first output (the answer key) and "
